@@ -404,7 +404,13 @@ def run(ctx, R, tier):
             "the batch handler does not wrap the exception it caught")
     tbst = [st for st in H.body if isinstance(st, ast.Assign) and isinstance(st.targets[0], ast.Attribute) and st.targets[0].attr == "_pyroTraceback"
             and unparse(st.targets[0].value) == H.name]
-    ok = bool(tbst) and bool(wraps) and tbst[0].lineno < wraps[0].lineno
+    def _pos(node):
+        """index of the handler statement that contains node (statement order, not line numbers)"""
+        for i_, st_ in enumerate(H.body):
+            if any(x is node for x in ast.walk(st_)):
+                return i_
+        return -1
+    ok = bool(tbst) and bool(wraps) and 0 <= _pos(tbst[0]) < _pos(wraps[0])
     R.check(ok, "C07-R5", "batch|traceback-stored", "the traceback is attached to the exception before it is wrapped", hr.loc(H),
             "batch members lose their remote traceback")
     rg = ctx.fn("Pyro5.client.BatchProxy.__resultsgenerator")
